@@ -138,6 +138,8 @@ class Proj:
         pr = Proj(self.kit, ctx, agg, agg.fields[self.kit.ll.fidx('Project', 'parser')])
         pr.sources = {k: clone_graph(v, memo) for k, v in self.sources.items()}
         ctx.statics = clone_graph(self.statics, memo)
+        pr.statics = ctx.statics
+        if hasattr(self, 'diagnostics'): pr.diagnostics = clone_graph(self.diagnostics, memo)
         return pr
 
     def set_text(self, ctx, name, chars):
